@@ -1420,3 +1420,909 @@ Proof.
          [mkL 0 [2] 1; mkL 1 [3] 0].
   split; [apply chain_wf_b_sound; vm_compute; reflexivity|vm_compute; reflexivity].
 Qed.
+
+(* ================================================================ the common range is sorted and non-overlapping *)
+(* two bands do not overlap (they may touch) *)
+Definition dj (a b : band) : Prop := (snd a <= fst b)%Q \/ (snd b <= fst a)%Q.
+(* pairwise, by position *)
+Fixpoint pdisj (l : list band) : Prop :=
+  match l with [] => True | a :: t => Forall (dj a) t /\ pdisj t end.
+(* x lies within a *)
+Definition sub (x a : band) : Prop := (fst a <= fst x)%Q /\ (snd x <= snd a)%Q.
+Definition strict (x : band) : Prop := (fst x < snd x)%Q.
+
+Lemma dj_sym a b : dj a b -> dj b a.
+Proof. unfold dj. tauto. Qed.
+
+Lemma dj_sub a b x y : dj a b -> sub x a -> sub y b -> dj x y.
+Proof.
+  unfold dj, sub. intros [H|H] (A1 & A2) (B1 & B2).
+  - left. apply Qle_trans with (snd a); [exact A2|]. apply Qle_trans with (fst b); assumption.
+  - right. apply Qle_trans with (snd b); [exact B2|]. apply Qle_trans with (fst a); assumption.
+Qed.
+
+Lemma sub_refl a : sub a a.
+Proof. split; apply Qle_refl. Qed.
+Lemma sub_trans x y z : sub x y -> sub y z -> sub x z.
+Proof. intros (A1 & A2) (B1 & B2). split; eapply Qle_trans; eassumption. Qed.
+
+Lemma pdisj_app l1 l2 :
+  pdisj (l1 ++ l2) <-> pdisj l1 /\ pdisj l2 /\ forall a b, In a l1 -> In b l2 -> dj a b.
+Proof.
+  induction l1 as [|x t IH]; cbn [app pdisj].
+  - split; [intros H; repeat split; auto; intros a b []|tauto].
+  - rewrite IH, Forall_app, !Forall_forall. split.
+    + intros ((H1 & H2) & H3 & H4 & H5). repeat split; auto.
+      intros a b [<-|Ha] Hb; auto.
+    + intros ((H1 & H2) & H3 & H4). repeat split; auto.
+      * intros b Hb. apply H4; [left; reflexivity|exact Hb].
+      * intros a b Ha Hb. apply H4; [right; exact Ha|exact Hb].
+Qed.
+
+(* one band against a list: the pieces lie within the band and within pairwise different bands of the list *)
+Definition inner (first : band) (bands : list band) : list band :=
+  flat_map (fun second =>
+     let lo := qmax (fst first) (fst second) in
+     let hi := qmin (snd first) (snd second) in
+     if Qltb lo hi then [(lo, hi)] else []) bands.
+
+Lemma intersect_cons f c b : intersect (f :: c) b = inner f b ++ intersect c b.
+Proof. reflexivity. Qed.
+
+Lemma qmax_ge_l a b : (a <= qmax a b)%Q.
+Proof. apply (proj1 (qmax_le a b (qmax a b))). apply Qle_refl. Qed.
+Lemma qmax_ge_r a b : (b <= qmax a b)%Q.
+Proof. apply (proj1 (qmax_le a b (qmax a b))). apply Qle_refl. Qed.
+Lemma qmin_le_l a b : (qmin a b <= a)%Q.
+Proof. apply (proj1 (qmin_ge a b (qmin a b))). apply Qle_refl. Qed.
+Lemma qmin_le_r a b : (qmin a b <= b)%Q.
+Proof. apply (proj1 (qmin_ge a b (qmin a b))). apply Qle_refl. Qed.
+
+Lemma In_inner x f b : In x (inner f b) -> strict x /\ sub x f /\ exists s, In s b /\ sub x s.
+Proof.
+  unfold inner. rewrite in_flat_map. intros (s & Hs & Hx).
+  destruct (Qltb _ _) eqn:E; [|destruct Hx]. destruct Hx as [<-|[]]. apply Qltb_true in E.
+  split; [exact E|]. split.
+  - split; cbn [fst snd]; [apply qmax_ge_l|apply qmin_le_l].
+  - exists s. split; [exact Hs|]. split; cbn [fst snd]; [apply qmax_ge_r|apply qmin_le_r].
+Qed.
+
+Lemma pdisj_inner f b : pdisj b -> pdisj (inner f b).
+Proof.
+  induction b as [|s t IH]; intros H; [exact I|]. cbn [pdisj] in H. destruct H as (H1 & H2).
+  change (inner f (s :: t)) with
+    ((if Qltb (qmax (fst f) (fst s)) (qmin (snd f) (snd s)) then [(qmax (fst f) (fst s), qmin (snd f) (snd s))] else [])
+     ++ inner f t).
+  apply pdisj_app. split; [destruct (Qltb _ _); cbn; auto|]. split; [apply IH; exact H2|].
+  intros a b' Ha Hb. destruct (Qltb _ _); [|destruct Ha]. destruct Ha as [<-|[]].
+  apply In_inner in Hb. destruct Hb as (_ & _ & s' & Hs' & Hsub).
+  rewrite Forall_forall in H1. apply (dj_sub s s'); [apply H1; exact Hs'| |exact Hsub].
+  split; cbn [fst snd]; [apply qmax_ge_r|apply qmin_le_r].
+Qed.
+
+Lemma In_intersect_sub x c b : In x (intersect c b) -> strict x /\ (exists f, In f c /\ sub x f) /\ exists s, In s b /\ sub x s.
+Proof.
+  induction c as [|f t IH]; [intros []|]. rewrite intersect_cons, in_app_iff. intros [H|H].
+  - apply In_inner in H. destruct H as (H1 & H2 & H3). split; [exact H1|]. split; [exists f; split; [left; reflexivity|exact H2]|exact H3].
+  - destruct (IH H) as (H1 & (f' & Hf' & Hs) & H3). split; [exact H1|]. split; [exists f'; split; [right; exact Hf'|exact Hs]|exact H3].
+Qed.
+
+Lemma pdisj_intersect c b : pdisj c -> pdisj b -> pdisj (intersect c b).
+Proof.
+  induction c as [|f t IH]; intros Hc Hb; [exact I|]. cbn [pdisj] in Hc. destruct Hc as (H1 & H2).
+  rewrite intersect_cons. apply pdisj_app. split; [apply pdisj_inner; exact Hb|]. split; [apply IH; assumption|].
+  intros x y Hx Hy. apply In_inner in Hx. destruct Hx as (_ & Hxf & _).
+  apply In_intersect_sub in Hy. destruct Hy as (_ & (f' & Hf' & Hyf) & _).
+  rewrite Forall_forall in H1. apply (dj_sub f f'); auto.
+Qed.
+
+(* after the whole fold: pairwise non-overlapping, every piece within a band of the start list; strict once a step
+   has been taken *)
+Lemma fold_intersect_props u : forall c,
+  pdisj c -> (forall a, In a u -> pdisj a) ->
+  pdisj (fold_left intersect u c) /\
+  (forall x, In x (fold_left intersect u c) -> exists f, In f c /\ sub x f) /\
+  (u <> [] -> forall x, In x (fold_left intersect u c) -> strict x).
+Proof.
+  induction u as [|b t IH]; intros c Hc Hu; cbn [fold_left].
+  - split; [exact Hc|]. split; [intros x Hx; exists x; split; [exact Hx|apply sub_refl]|congruence].
+  - destruct (IH (intersect c b)) as (P1 & P2 & P3).
+    { apply pdisj_intersect; [exact Hc|apply Hu; left; reflexivity]. }
+    { intros a Ha. apply Hu. right. exact Ha. }
+    split; [exact P1|]. split.
+    + intros x Hx. destruct (P2 x Hx) as (f & Hf & Hs). apply In_intersect_sub in Hf.
+      destruct Hf as (_ & (f' & Hf' & Hs') & _). exists f'. split; [exact Hf'|eapply sub_trans; eassumption].
+    + intros _ x Hx. destruct t as [|b2 t2].
+      * cbn [fold_left] in Hx. apply In_intersect_sub in Hx. tauto.
+      * apply P3; [discriminate|exact Hx].
+Qed.
+
+(* sorted(key = f_min): a permutation that keeps pairwise properties and orders the lower edges *)
+Fixpoint ssorted (l : list band) : Prop :=
+  match l with [] => True | a :: t => Forall (fun b => (fst a <= fst b)%Q) t /\ ssorted t end.
+Definition ble (a b : band) : bool := Qle_bool (fst a) (fst b).
+
+Lemma Forall_insert_by {A} (P : A -> Prop) (le : A -> A -> bool) x l :
+  Forall P (insert_by le x l) <-> P x /\ Forall P l.
+Proof.
+  rewrite !Forall_forall. split.
+  - intros H. split; [apply H, In_insert_by; left; reflexivity|intros y Hy; apply H, In_insert_by; right; exact Hy].
+  - intros (Hx & Hl) y Hy. apply In_insert_by in Hy. destruct Hy as [->|Hy]; auto.
+Qed.
+
+Lemma pdisj_insert x l : Forall (dj x) l -> pdisj l -> pdisj (insert_by ble x l).
+Proof.
+  induction l as [|y t IH]; intros Hx Hl; cbn [insert_by pdisj]; [auto|].
+  cbn [pdisj] in Hl. destruct Hl as (Hy & Ht). inversion Hx as [|? ? Hxy Hxt]; subst.
+  destruct (ble y x); cbn [pdisj].
+  - split; [apply Forall_insert_by; split; [apply dj_sym; exact Hxy|exact Hy]|apply IH; assumption].
+  - split; [constructor; assumption|split; assumption].
+Qed.
+
+Lemma ssorted_insert x l : ssorted l -> ssorted (insert_by ble x l).
+Proof.
+  induction l as [|y t IH]; intros Hl; cbn [insert_by ssorted]; [auto|].
+  cbn [ssorted] in Hl. destruct Hl as (Hy & Ht).
+  destruct (ble y x) eqn:E; cbn [ssorted].
+  - split; [apply Forall_insert_by; split; [apply Qle_bool_iff; exact E|exact Hy]|apply IH; exact Ht].
+  - assert (Hxy : (fst x <= fst y)%Q).
+    { unfold ble in E. apply Qlt_le_weak. apply Qnot_le_lt. intros H. apply Qle_bool_iff in H. congruence. }
+    split; [|split; assumption]. constructor; [exact Hxy|].
+    rewrite Forall_forall in *. intros b Hb. apply Qle_trans with (fst y); [exact Hxy|apply Hy; exact Hb].
+Qed.
+
+Lemma sort_bands_props l : pdisj l -> pdisj (sort_bands l) /\ ssorted (sort_bands l).
+Proof.
+  unfold sort_bands, sort_by. change (fun a b : Q * Q => Qle_bool (fst a) (fst b)) with ble.
+  assert (H : forall acc, pdisj acc -> ssorted acc -> pdisj l -> (forall a b, In a acc -> In b l -> dj a b) ->
+            pdisj (fold_left (fun acc x => insert_by ble x acc) l acc) /\
+            ssorted (fold_left (fun acc x => insert_by ble x acc) l acc)).
+  { induction l as [|x t IH]; intros acc Ha Hs Hl Hc; cbn [fold_left]; [auto|].
+    cbn [pdisj] in Hl. destruct Hl as (Hx & Ht). apply IH.
+    - apply pdisj_insert; [|exact Ha]. apply Forall_forall. intros a Ha'. apply dj_sym. apply Hc; [exact Ha'|left; reflexivity].
+    - apply ssorted_insert. exact Hs.
+    - exact Ht.
+    - intros a b Ha' Hb. apply In_insert_by in Ha'. destruct Ha' as [->|Ha'].
+      + rewrite Forall_forall in Hx. apply Hx. exact Hb.
+      + apply Hc; [exact Ha'|right; exact Hb]. }
+  intros Hl. apply H; cbn; auto. intros a b [].
+Qed.
+
+(* sorted by lower edge + pairwise non-overlapping + strict  =>  each band ends before the next begins *)
+Lemma chain_of_sorted l : forall prev f_max,
+  ssorted l -> pdisj l -> Forall strict l ->
+  Forall (fun b => (prev <= fst b)%Q /\ (snd b <= f_max)%Q) l -> (prev <= f_max)%Q ->
+  sorted_from prev l f_max.
+Proof.
+  induction l as [|[lo hi] t IH]; intros prev f_max Hs Hd Hst Hin Hpf; cbn [sorted_from]; [exact Hpf|].
+  cbn [ssorted pdisj] in *. destruct Hs as (Hs1 & Hs2). destruct Hd as (Hd1 & Hd2).
+  inversion Hst as [|? ? Hlh Hst']; subst. inversion Hin as [|? ? (Hp & Hf) Hin']; subst. cbn [fst snd] in *.
+  split; [exact Hp|]. split; [apply Qlt_le_weak; exact Hlh|].
+  apply IH; [exact Hs2|exact Hd2|exact Hst'| |exact Hf].
+  rewrite Forall_forall in *. intros b Hb. destruct (Hin' b Hb) as (_ & Hbf). split; [|exact Hbf].
+  destruct (Hd1 b Hb) as [H|H]; cbn [fst snd] in H; [exact H|].
+  (* b ends before (lo,hi) begins although it starts after it: b would be empty *)
+  exfalso. specialize (Hs1 b Hb). specialize (Hst' b Hb). cbn [fst] in Hs1. unfold strict in Hst'.
+  apply (Qlt_irrefl (fst b)). apply Qlt_le_trans with (snd b); [exact Hst'|]. apply Qle_trans with lo; assumption.
+Qed.
+
+(* the result: every amplifier's own bands pairwise non-overlapping, all of them inside [f_min, f_max], and a
+   non-empty outcome  =>  the common range is sorted, non-overlapping and inside [f_min, f_max] *)
+Theorem find_common_range_sorted amps si f_min f_max :
+  amps <> [] ->
+  (forall amp, In amp amps -> pdisj amp) ->
+  (forall amp b, In amp amps -> In b amp -> (f_min <= fst b)%Q /\ (snd b <= f_max)%Q) ->
+  find_common_range amps si <> [] ->
+  sorted_in f_min f_max (find_common_range amps si).
+Proof.
+  intros Hne Hpd Hin Hout. unfold find_common_range in *.
+  destruct (dedupe (map sort_bands amps) []) as [|c0 t] eqn:Eu.
+  { exfalso. destruct amps as [|amp amps']; [congruence|].
+    destruct (dedupe_repr (map sort_bands (amp :: amps')) [] (sort_bands amp)) as (a' & Ha' & _); [left; reflexivity|].
+    rewrite Eu in Ha'. destruct Ha'. }
+  assert (Hu : forall a, In a (c0 :: t) -> exists amp, In amp amps /\ a = sort_bands amp).
+  { intros a Ha. rewrite <- Eu in Ha. apply dedupe_incl in Ha. apply in_map_iff in Ha. destruct Ha as (amp & <- & Hamp). eauto. }
+  assert (Hupd : forall a, In a (c0 :: t) -> pdisj a).
+  { intros a Ha. destruct (Hu a Ha) as (amp & Hamp & ->). apply sort_bands_props. apply Hpd. exact Hamp. }
+  destruct (fold_intersect_props (c0 :: t) c0) as (P1 & P2 & P3); [apply Hupd; left; reflexivity|exact Hupd|].
+  set (r := fold_left intersect (c0 :: t) c0) in *.
+  destruct (sort_bands_props r P1) as (S1 & S2).
+  assert (Hstrict : Forall strict (sort_bands r)).
+  { apply Forall_forall. intros x Hx. apply In_sort_by in Hx. apply P3; [discriminate|exact Hx]. }
+  assert (Hwithin : Forall (fun b => (f_min <= fst b)%Q /\ (snd b <= f_max)%Q) (sort_bands r)).
+  { apply Forall_forall. intros x Hx. apply In_sort_by in Hx. destruct (P2 x Hx) as (f & Hf & (A1 & A2)).
+    destruct (Hu c0 (or_introl eq_refl)) as (amp & Hamp & E0). rewrite E0 in Hf. apply In_sort_by in Hf.
+    destruct (Hin amp f Hamp Hf) as (B1 & B2). split; eapply Qle_trans; eassumption. }
+  destruct (sort_bands r) as [|[lo hi] rest] eqn:Er; [congruence|].
+  cbn [sorted_in]. inversion Hwithin as [|? ? (W1 & W2) Hw']; subst. inversion Hstrict as [|? ? Hlh Hst']; subst.
+  cbn [fst snd] in *. split; [exact W1|]. split; [apply Qlt_le_weak; exact Hlh|].
+  cbn [ssorted pdisj] in S1, S2. destruct S1 as (D1 & D2). destruct S2 as (O1 & O2).
+  apply chain_of_sorted; [exact O2|exact D2|exact Hst'| |exact W2].
+  rewrite Forall_forall in *. intros b Hb. destruct (Hw' b Hb) as (_ & Hbf). split; [|exact Hbf].
+  destruct (D1 b Hb) as [H|H]; cbn [fst snd] in H; [exact H|].
+  exfalso. specialize (O1 b Hb). specialize (Hst' b Hb). cbn [fst] in O1. unfold strict in Hst'.
+  apply (Qlt_irrefl (fst b)). apply Qlt_le_trans with (snd b); [exact Hst'|]. apply Qle_trans with lo; assumption.
+Qed.
+
+(* ================================================================ remove_duplicates cannot influence the map *)
+(* every piece of c is a proper interval within some band of b *)
+Definition refines (c b : list band) : Prop := forall f, In f c -> strict f /\ exists s, In s b /\ sub f s.
+
+Lemma piece_empty f s s0 : sub f s0 -> dj s0 s ->
+  Qltb (qmax (fst f) (fst s)) (qmin (snd f) (snd s)) = false.
+Proof.
+  intros (A1 & A2) Hd. apply Qltb_false. destruct Hd as [H|H].
+  - apply Qle_trans with (snd f); [apply qmin_le_l|]. apply Qle_trans with (snd s0); [exact A2|].
+    apply Qle_trans with (fst s); [exact H|apply qmax_ge_r].
+  - apply Qle_trans with (snd s); [apply qmin_le_r|]. apply Qle_trans with (fst s0); [exact H|].
+    apply Qle_trans with (fst f); [exact A1|apply qmax_ge_l].
+Qed.
+
+Lemma piece_self f s : strict f -> sub f s ->
+  (if Qltb (qmax (fst f) (fst s)) (qmin (snd f) (snd s)) then [(qmax (fst f) (fst s), qmin (snd f) (snd s))] else []) = [f].
+Proof.
+  intros Hst (A1 & A2).
+  assert (E1 : qmax (fst f) (fst s) = fst f).
+  { unfold qmax. destruct (Qltb (fst f) (fst s)) eqn:E; [|reflexivity]. apply Qltb_true in E.
+    exfalso. apply (Qlt_irrefl (fst f)). apply Qlt_le_trans with (fst s); assumption. }
+  assert (E2 : qmin (snd f) (snd s) = snd f).
+  { unfold qmin. destruct (Qltb (snd s) (snd f)) eqn:E; [|reflexivity]. apply Qltb_true in E.
+    exfalso. apply (Qlt_irrefl (snd s)). apply Qlt_le_trans with (snd f); assumption. }
+  rewrite E1, E2. rewrite (proj2 (Qltb_true _ _) Hst). destruct f; reflexivity.
+Qed.
+
+Lemma inner_nil f s0 b : sub f s0 -> Forall (dj s0) b -> inner f b = [].
+Proof.
+  intros Hs H. induction H as [|s t Hd _ IH]; [reflexivity|].
+  change (inner f (s :: t)) with
+    ((if Qltb (qmax (fst f) (fst s)) (qmin (snd f) (snd s)) then [(qmax (fst f) (fst s), qmin (snd f) (snd s))] else [])
+     ++ inner f t).
+  rewrite (piece_empty f s s0 Hs Hd), IH. reflexivity.
+Qed.
+
+Lemma inner_single f b : strict f -> pdisj b -> (exists s, In s b /\ sub f s) -> inner f b = [f].
+Proof.
+  intros Hst. induction b as [|s0 t IH]; intros Hp (s & Hs & Hsub); [destruct Hs|].
+  cbn [pdisj] in Hp. destruct Hp as (Hd & Hp).
+  change (inner f (s0 :: t)) with
+    ((if Qltb (qmax (fst f) (fst s0)) (qmin (snd f) (snd s0)) then [(qmax (fst f) (fst s0), qmin (snd f) (snd s0))] else [])
+     ++ inner f t).
+  destruct Hs as [<-|Hs].
+  - rewrite (piece_self f s0 Hst Hsub), (inner_nil f s0 t Hsub Hd). reflexivity.
+  - rewrite Forall_forall in Hd. rewrite (piece_empty f s0 s Hsub (dj_sym _ _ (Hd s Hs))).
+    rewrite IH; [reflexivity|exact Hp|eauto].
+Qed.
+
+Lemma intersect_id c b : pdisj b -> refines c b -> intersect c b = c.
+Proof.
+  intros Hp. induction c as [|f t IH]; intros Hr; [reflexivity|].
+  rewrite intersect_cons. destruct (Hr f (or_introl eq_refl)) as (Hst & Hex).
+  rewrite (inner_single f b Hst Hp Hex). cbn [app]. f_equal. apply IH. intros x Hx. apply Hr. right. exact Hx.
+Qed.
+
+Lemma refines_intersect_r c b : refines (intersect c b) b.
+Proof. intros x Hx. apply In_intersect_sub in Hx. tauto. Qed.
+
+Lemma refines_intersect_l c b b2 : refines c b -> refines (intersect c b2) b.
+Proof.
+  intros Hr x Hx. apply In_intersect_sub in Hx. destruct Hx as (Hst & (f & Hf & Hs) & _).
+  split; [exact Hst|]. destruct (Hr f Hf) as (_ & s & Hs' & Hsub). exists s. split; [exact Hs'|eapply sub_trans; eassumption].
+Qed.
+
+Lemma bands_eqb_sym a : forall a', bands_eqb a a' = true -> bands_eqb a' a = true.
+Proof.
+  induction a as [|x t IH]; intros [|x' t'] E; cbn [bands_eqb] in *; try discriminate; [reflexivity|].
+  apply andb_true_iff in E. destruct E as (E1 & E2). rewrite (IH t' E2). unfold band_eqb in *.
+  apply andb_true_iff in E1. destruct E1 as (Ea & Eb). apply Qeq_bool_eq in Ea. apply Qeq_bool_eq in Eb.
+  rewrite (proj2 (Qeq_bool_iff _ _) (Qeq_sym _ _ Ea)), (proj2 (Qeq_bool_iff _ _) (Qeq_sym _ _ Eb)). reflexivity.
+Qed.
+
+Lemma bands_eqb_In a : forall a' s, bands_eqb a a' = true -> In s a ->
+  exists s', In s' a' /\ (fst s == fst s')%Q /\ (snd s == snd s')%Q.
+Proof.
+  induction a as [|x t IH]; intros [|x' t'] s E Hs; cbn [bands_eqb] in E; try discriminate; [destruct Hs|].
+  apply andb_true_iff in E. destruct E as (E1 & E2). unfold band_eqb in E1. apply andb_true_iff in E1.
+  destruct E1 as (Ea & Eb). apply Qeq_bool_eq in Ea. apply Qeq_bool_eq in Eb.
+  destruct Hs as [<-|Hs].
+  - exists x'. split; [left; reflexivity|auto].
+  - destruct (IH t' s E2 Hs) as (s' & Hs' & H). exists s'. split; [right; exact Hs'|exact H].
+Qed.
+
+Lemma refines_eqb c b b' : bands_eqb b b' = true -> refines c b -> refines c b'.
+Proof.
+  intros E Hr f Hf. destruct (Hr f Hf) as (Hst & s & Hs & (A1 & A2)). split; [exact Hst|].
+  destruct (bands_eqb_In b b' s E Hs) as (s' & Hs' & E1 & E2). exists s'. split; [exact Hs'|].
+  split; [rewrite <- E1; exact A1|rewrite <- E2; exact A2].
+Qed.
+
+(* remove_duplicates with ANY equality test that is at least as fine as band-for-band equality of (f_min, f_max) *)
+Fixpoint gdedupe {A} (eqt : A -> A -> bool) (l seen : list A) : list A :=
+  match l with
+  | [] => []
+  | a :: t => if existsb (eqt a) seen then gdedupe eqt t seen else a :: gdedupe eqt t (seen ++ [a])
+  end.
+
+Lemma dedupe_gdedupe l : forall seen, dedupe l seen = gdedupe bands_eqb l seen.
+Proof. induction l as [|a t IH]; intros seen; cbn [dedupe gdedupe]; [reflexivity|]. rewrite !IH. reflexivity. Qed.
+Lemma dedupe_sp_gdedupe l : forall seen, dedupe_sp l seen = gdedupe sbands_eqb l seen.
+Proof. induction l as [|a t IH]; intros seen; cbn [dedupe_sp gdedupe]; [reflexivity|]. rewrite !IH. reflexivity. Qed.
+
+Lemma gdedupe_fold {A} (eqt : A -> A -> bool) (proj : A -> list band) :
+  (forall a s, eqt a s = true -> bands_eqb (proj a) (proj s) = true) ->
+  forall l seen c,
+    (forall a, In a l -> pdisj (proj a)) ->
+    (forall s, In s seen -> refines c (proj s)) ->
+    fold_left intersect (map proj (gdedupe eqt l seen)) c = fold_left intersect (map proj l) c.
+Proof.
+  intros Heq. induction l as [|a t IH]; intros seen c Hp Hs; [reflexivity|]. cbn [gdedupe map fold_left].
+  destruct (existsb (eqt a) seen) eqn:E.
+  - apply existsb_exists in E. destruct E as (s & Hin & Hes).
+    rewrite (intersect_id c (proj a)).
+    + apply IH; [intros; apply Hp; right; assumption|exact Hs].
+    + apply Hp. left. reflexivity.
+    + apply (refines_eqb c (proj s) (proj a)); [apply bands_eqb_sym, Heq, Hes|apply Hs, Hin].
+  - cbn [map fold_left]. apply IH; [intros; apply Hp; right; assumption|].
+    intros s Hin. apply in_app_iff in Hin. destruct Hin as [Hin|[<-|[]]].
+    + apply refines_intersect_l. apply Hs. exact Hin.
+    + apply refines_intersect_r.
+Qed.
+
+(* the whole function with any such test = the fold over ALL sorted amplifiers, no duplicate removed *)
+Definition fcr_all (L : list (list band)) (si : band) : list band :=
+  match L with [] => [si] | c0 :: _ => sort_bands (fold_left intersect L c0) end.
+
+Lemma gdedupe_fcr {A} (eqt : A -> A -> bool) (proj : A -> list band) (L : list A) si :
+  (forall a s, eqt a s = true -> bands_eqb (proj a) (proj s) = true) ->
+  (forall a, In a L -> pdisj (proj a)) ->
+  match gdedupe eqt L [] with
+  | [] => [si]
+  | c0 :: t => sort_bands (fold_left intersect (map proj (c0 :: t)) (proj c0))
+  end = fcr_all (map proj L) si.
+Proof.
+  intros Heq Hp. destruct L as [|c0 L']; [reflexivity|]. cbn [gdedupe existsb app map fcr_all fold_left].
+  f_equal. apply (gdedupe_fold eqt proj Heq L' [c0] (intersect (proj c0) (proj c0))).
+  - intros a Ha. apply Hp. right. exact Ha.
+  - intros s [<-|[]]. apply refines_intersect_r.
+Qed.
+
+Lemma sbands_eqb_bands a : forall s, sbands_eqb a s = true -> bands_eqb (map sb_band a) (map sb_band s) = true.
+Proof.
+  induction a as [|x t IH]; intros [|y t'] E; cbn [sbands_eqb] in E; try discriminate; [reflexivity|].
+  apply andb_true_iff in E. destruct E as (E1 & E2). unfold sband_eqb in E1. apply andb_true_iff in E1.
+  destruct E1 as (E1 & _). cbn [map bands_eqb]. rewrite E1, (IH t' E2). reflexivity.
+Qed.
+
+Lemma map_insert_by {A B} (f : A -> B) (le : A -> A -> bool) (le' : B -> B -> bool) x l :
+  (forall a b, le a b = le' (f a) (f b)) -> map f (insert_by le x l) = insert_by le' (f x) (map f l).
+Proof.
+  intros H. induction l as [|y t IH]; [reflexivity|]. cbn [insert_by map]. rewrite <- H.
+  destruct (le y x); cbn [map]; [rewrite IH|]; reflexivity.
+Qed.
+
+Lemma map_sort_by {A B} (f : A -> B) (le : A -> A -> bool) (le' : B -> B -> bool) l :
+  (forall a b, le a b = le' (f a) (f b)) -> map f (sort_by le l) = sort_by le' (map f l).
+Proof.
+  intros H. unfold sort_by.
+  assert (G : forall acc, map f (fold_left (fun acc x => insert_by le x acc) l acc) =
+                          fold_left (fun acc x => insert_by le' x acc) (map f l) (map f acc)).
+  { induction l as [|x t IH]; intros acc; [reflexivity|]. cbn [fold_left map]. rewrite IH.
+    rewrite (map_insert_by f le le' x acc H). reflexivity. }
+  apply (G []).
+Qed.
+
+(* spacing (or any other key remove_duplicates looks at) cannot influence the spectrum map: with amplifiers whose
+   own bands do not overlap, the spacing-aware function returns exactly what the (f_min, f_max)-only model returns *)
+Theorem spacing_irrelevant amps si :
+  (forall amp, In amp amps -> pdisj (map sb_band amp)) ->
+  find_common_range_sp amps si = find_common_range (map (map sb_band) amps) si.
+Proof.
+  intros Hp.
+  assert (Hsort : forall a, map sb_band (sort_sbands a) = sort_bands (map sb_band a)).
+  { intros a. unfold sort_sbands, sort_bands. apply map_sort_by. intros x y. reflexivity. }
+  assert (HL : map (map sb_band) (map sort_sbands amps) = map sort_bands (map (map sb_band) amps)).
+  { rewrite !map_map. apply map_ext. exact Hsort. }
+  unfold find_common_range_sp, find_common_range.
+  rewrite dedupe_sp_gdedupe, dedupe_gdedupe.
+  rewrite (gdedupe_fcr sbands_eqb (map sb_band) (map sort_sbands amps) si sbands_eqb_bands).
+  2:{ intros a Ha. apply in_map_iff in Ha. destruct Ha as (amp & <- & Hamp). rewrite Hsort.
+      apply sort_bands_props. apply Hp. exact Hamp. }
+  pose proof (gdedupe_fcr bands_eqb (fun x => x) (map sort_bands (map (map sb_band) amps)) si (fun a s H => H)) as G.
+  rewrite map_id in G. rewrite HL.
+  rewrite <- G.
+  - destruct (gdedupe bands_eqb (map sort_bands (map (map sb_band) amps)) []) as [|c0 t]; [reflexivity|].
+    rewrite map_id. reflexivity.
+  - intros a Ha. apply in_map_iff in Ha. destruct Ha as (amp & <- & Hamp). apply sort_bands_props.
+    apply in_map_iff in Hamp. destruct Hamp as (amp0 & <- & Hamp0). apply Hp. exact Hamp0.
+Qed.
+
+(* ================================================================ local graph conditions => chain structure *)
+Lemma walk_hd g f x y p : walk g f x y = Ok p -> exists t, p = y :: t.
+Proof.
+  destruct f as [|f]; cbn [walk]; [discriminate|].
+  destruct (lookup g y) as [n|]; [|discriminate].
+  destruct (kind_eqb (kind n) KRoadm).
+  - intros H. injection H as <-. eauto.
+  - destruct (filter _ (succs n)) as [|nx l]; [discriminate|].
+    destruct (walk g f y nx) as [r|e]; [|discriminate]. cbn [bind]. intros H. injection H as <-. eauto.
+Qed.
+
+Lemma is_line_uid_lookup g u : is_line_uid g u = true -> exists n, lookup g u = Some n /\ is_line_node n = true.
+Proof. unfold is_line_uid. destruct (lookup g u) as [n|]; [eauto|discriminate]. Qed.
+
+Definition nodes_local (g : graph) : Prop := forall n, In n g -> node_local_b g n = true.
+
+Lemma line_node_succ g n : nodes_local g -> In n g -> is_line_node n = true ->
+  exists s, succs n = [s] /\ (is_kind g KRoadm s = true \/ is_line_uid g s = true).
+Proof.
+  intros HL Hn Hl. specialize (HL n Hn). unfold node_local_b in HL. unfold is_line_node in Hl.
+  destruct (kind n); cbn in Hl; try discriminate;
+    (destruct (succs n) as [|s [|s2 l]]; try discriminate; exists s; split; [reflexivity|]; apply orb_true_iff in HL; exact HL).
+Qed.
+
+(* a successful walk from x into a line element or a ROADM is a chain ending at a ROADM *)
+Lemma walk_chain_ok g : nodes_local g -> forall f x y p,
+  walk g f x y = Ok p -> (is_kind g KRoadm y = true \/ is_line_uid g y = true) ->
+  chain_ok_b g x p = true /\ is_kind g KRoadm (List.last p 0) = true.
+Proof.
+  intros HL. induction f as [|f IH]; intros x y p Hw Hy; cbn [walk] in Hw; [discriminate|].
+  destruct (lookup g y) as [n|] eqn:En; [|discriminate].
+  destruct (kind_eqb (kind n) KRoadm) eqn:Ek.
+  - injection Hw as <-. split; [reflexivity|]. cbn [List.last]. unfold is_kind, kind_of. rewrite En. cbn [option_map].
+    rewrite kind_eqb_sym. exact Ek.
+  - assert (Hline : is_line_node n = true).
+    { destruct Hy as [Hy|Hy].
+      - unfold is_kind, kind_of in Hy. rewrite En in Hy. cbn [option_map] in Hy. rewrite kind_eqb_sym in Hy. congruence.
+      - unfold is_line_uid in Hy. rewrite En in Hy. exact Hy. }
+    destruct (lookup_In g y n En) as (Hn & Hu).
+    destruct (line_node_succ g n HL Hn Hline) as (s & Es & Hs). rewrite Es in Hw. cbn [filter] in Hw.
+    destruct (s =? x) eqn:Esx; cbn [negb] in Hw; [discriminate|].
+    destruct (walk g f y s) as [r|e] eqn:Er; [|discriminate]. cbn [bind] in Hw. injection Hw as <-.
+    destruct (IH y s r Er Hs) as (Hc & Hlast). destruct (walk_hd g f y s r Er) as (t & ->).
+    split.
+    + cbn [chain_ok_b]. rewrite En, Es. unfold is_line_node in Hline. apply andb_true_iff in Hline.
+      destruct Hline as (A & B). rewrite A, B, Z.eqb_refl, Esx. cbn. exact Hc.
+    + exact Hlast.
+Qed.
+
+Lemma starts_in g vs a b : In (a, b) (starts_of g vs) ->
+  exists n, In n vs /\ uid n = a /\ In b (succs n) /\ is_kind g KTrx b = false.
+Proof.
+  unfold starts_of. rewrite in_flat_map. intros (n & Hn & Hin). apply in_map_iff in Hin.
+  destruct Hin as (t & Et & Ht). injection Et as <- <-. apply filter_In in Ht. destruct Ht as (Ht & Hk).
+  exists n. repeat split; auto. apply negb_true_iff in Hk. exact Hk.
+Qed.
+
+Lemma walk_target_kind g f x y p : walk g f x y = Ok p -> is_kind g KTrx y = false ->
+  is_kind g KRoadm y = true \/ is_line_uid g y = true.
+Proof.
+  destruct f as [|f]; cbn [walk]; [discriminate|]. unfold is_kind, kind_of, is_line_uid, is_line_node.
+  destruct (lookup g y) as [n|]; [|discriminate]. cbn [option_map]. intros _ Ht.
+  rewrite (kind_eqb_sym KTrx) in Ht. rewrite (kind_eqb_sym KRoadm).
+  destruct (kind_eqb (kind n) KRoadm); [left; reflexivity|right]. rewrite Ht. reflexivity.
+Qed.
+
+(* ---- edges into line elements, root paths *)
+Definition edgeL (g : graph) (a u : Z) : Prop :=
+  exists n, In n g /\ uid n = a /\ In u (succs n) /\ is_line_uid g u = true.
+Definition has_roadm (g : graph) (a : Z) : Prop := exists n, In n g /\ uid n = a /\ is_roadm n = true.
+Definition has_line (g : graph) (a : Z) : Prop := exists n, In n g /\ uid n = a /\ is_line_node n = true.
+
+Inductive rpn (g : graph) (r t : Z) : Z -> nat -> Prop :=
+  | rp0 : edgeL g r t -> has_roadm g r -> rpn g r t t 0
+  | rpS u v k : rpn g r t u k -> edgeL g u v -> has_line g u -> rpn g r t v (S k).
+
+Lemma NoDup_app_disj {A} (l1 l2 : list A) x : NoDup (l1 ++ l2) -> In x l1 -> In x l2 -> False.
+Proof.
+  induction l1 as [|a t IH]; intros H H1 H2; [destruct H1|]. cbn [app] in H. inversion H as [|? ? Hn Ht]; subst.
+  destruct H1 as [->|H1]; [apply Hn, in_or_app; right; exact H2|eauto].
+Qed.
+
+Lemma NoDup_flat_map_inj {A B} (f : A -> list B) l x y u :
+  NoDup (flat_map f l) -> In x l -> In y l -> In u (f x) -> In u (f y) -> x = y \/ False.
+Proof.
+  induction l as [|a t IH]; intros Hnd Hx Hy Hux Huy; [destruct Hx|]. cbn [flat_map] in Hnd.
+  destruct Hx as [->|Hx]; destruct Hy as [->|Hy]; auto.
+  - right. apply (NoDup_app_disj _ _ u Hnd Hux). apply in_flat_map. eauto.
+  - right. apply (NoDup_app_disj _ _ u Hnd Huy). apply in_flat_map. eauto.
+  - apply IH; auto. eapply NoDup_app_r. exact Hnd.
+Qed.
+
+Lemma edge_fun g a a' u : NoDup (line_targets g) -> edgeL g a u -> edgeL g a' u -> a = a'.
+Proof.
+  intros Hnd (n & Hn & <- & Hu & Hl) (n' & Hn' & <- & Hu' & _).
+  destruct (NoDup_flat_map_inj (fun n => filter (is_line_uid g) (succs n)) g n n' u Hnd Hn Hn') as [->|[]];
+    [apply filter_In; auto|apply filter_In; auto|reflexivity].
+Qed.
+
+Lemma kind_clash g a : NoDup (map uid g) -> has_roadm g a -> has_line g a -> False.
+Proof.
+  intros Hnd (n & Hn & Hu & Hr) (n' & Hn' & Hu' & Hl).
+  pose proof (lookup_NoDup g n Hnd Hn) as L1. pose proof (lookup_NoDup g n' Hnd Hn') as L2.
+  rewrite Hu in L1. rewrite Hu' in L2. rewrite L1 in L2. injection L2 as <-.
+  unfold is_roadm in Hr. unfold is_line_node in Hl. rewrite Hr in Hl. discriminate.
+Qed.
+
+Lemma rpn_inv g r t u k : rpn g r t u k ->
+  (u = t /\ k = 0%nat /\ edgeL g r t /\ has_roadm g r) \/
+  (exists w k0, k = S k0 /\ rpn g r t w k0 /\ edgeL g w u /\ has_line g w).
+Proof. intros H. destruct H as [He Hr|w v k H He Hl]; [left; auto|right; exists w, k; auto]. Qed.
+
+Lemma rpn_unique g r t r' t' u k k' :
+  NoDup (map uid g) -> NoDup (line_targets g) ->
+  rpn g r t u k -> rpn g r' t' u k' -> t = t' /\ k = k'.
+Proof.
+  intros Hn Ht H. revert r' t' k'. induction H as [He Hr|w v k H IH He Hl]; intros r' t' k' H'.
+  - apply rpn_inv in H'. destruct H' as [(E1 & E2 & _)|(w' & k0 & _ & _ & He' & Hl')]; [subst; auto|].
+    exfalso. rewrite <- (edge_fun g r w' t Ht He He') in Hl'. eapply kind_clash; eassumption.
+  - apply rpn_inv in H'. destruct H' as [(E1 & E2 & He' & Hr')|(w' & k0 & Ek & H'' & He' & Hl')].
+    + exfalso. subst v. rewrite (edge_fun g w r' t' Ht He He') in Hl. eapply kind_clash; eassumption.
+    + rewrite <- (edge_fun g w w' v Ht He He') in H''. destruct (IH _ _ _ H'') as (E1 & E2). subst. auto.
+Qed.
+
+(* the interior of a chain, position by position *)
+Lemma chain_rpn g r t : forall p x k,
+  chain_ok_b g x p = true ->
+  (forall y rest, p = y :: rest -> rest <> [] -> rpn g r t y k) ->
+  forall i u, nth_error (removelast p) i = Some u -> rpn g r t u (k + i).
+Proof.
+  induction p as [|y q IH]; intros x k Hc Hbase i u Hi; [destruct i; discriminate|].
+  destruct q as [|z q']; [destruct i; discriminate|].
+  change (removelast (y :: z :: q')) with (y :: removelast (z :: q')) in Hi.
+  destruct i as [|i]; cbn [nth_error] in Hi.
+  - injection Hi as <-. rewrite Nat.add_0_r. apply (Hbase y (z :: q')); [reflexivity|discriminate].
+  - replace (k + S i)%nat with (S k + i)%nat by lia.
+    cbn [chain_ok_b] in Hc. apply andb_true_iff in Hc. destruct Hc as (Hy & Hrest).
+    apply (IH y (S k) Hrest); [|exact Hi].
+    intros y' rest E Hne. injection E as <- <-.
+    destruct (lookup g y) as [n|] eqn:En; [|discriminate].
+    apply andb_true_iff in Hy. destruct Hy as (Hk & Hs). apply andb_true_iff in Hk. destruct Hk as (K1 & K2).
+    destruct (succs n) as [|s [|s2 ss]] eqn:Es; try discriminate.
+    apply andb_true_iff in Hs. destruct Hs as (Esz & _). assert (s = z) by lia. subst s.
+    destruct (lookup_In g y n En) as (Hn & Hu).
+    apply (rpS g r t y z k).
+    + apply (Hbase y (z :: q')); [reflexivity|discriminate].
+    + exists n. repeat split; auto; [rewrite Es; left; reflexivity|].
+      (* z is itself an interior element: a line element *)
+      destruct q' as [|w rest']; [congruence|]. cbn [chain_ok_b] in Hrest.
+      apply andb_true_iff in Hrest. destruct Hrest as (Hz & _). unfold is_line_uid, is_line_node.
+      destruct (lookup g z) as [nz|]; [|discriminate]. apply andb_true_iff in Hz. destruct Hz as (Hz & _). exact Hz.
+    + exists n. repeat split; auto. unfold is_line_node. rewrite K1, K2. reflexivity.
+Qed.
+
+(* ---- list lemmas *)
+Lemma NoDup_app_intro {A} (l1 l2 : list A) :
+  NoDup l1 -> NoDup l2 -> (forall x, In x l1 -> In x l2 -> False) -> NoDup (l1 ++ l2).
+Proof.
+  induction l1 as [|a t IH]; intros H1 H2 Hd; [exact H2|]. inversion H1 as [|? ? Hn Ht]; subst. cbn [app]. constructor.
+  - intros Hin. apply in_app_iff in Hin. destruct Hin as [Hin|Hin]; [auto|apply (Hd a); [left; reflexivity|exact Hin]].
+  - apply IH; auto. intros x Hx. apply Hd. right. exact Hx.
+Qed.
+
+Lemma NoDup_flat_map_keyed {A B K} (f : A -> list B) (key : A -> K) l :
+  NoDup (map key l) -> (forall x, In x l -> NoDup (f x)) ->
+  (forall x y u, In x l -> In y l -> In u (f x) -> In u (f y) -> key x = key y) ->
+  NoDup (flat_map f l).
+Proof.
+  induction l as [|a t IH]; intros Hk Hf Hc; [constructor|]. cbn [map] in Hk. inversion Hk as [|? ? Hn Ht]; subst.
+  cbn [flat_map]. apply NoDup_app_intro.
+  - apply Hf. left. reflexivity.
+  - apply IH; auto.
+    + intros x Hx. apply Hf. right. exact Hx.
+    + intros x y u Hx Hy. apply Hc; right; assumption.
+  - intros u Hu Hu'. apply in_flat_map in Hu'. destruct Hu' as (y & Hy & Huy).
+    apply Hn. rewrite (Hc a y u (or_introl eq_refl) (or_intror Hy) Hu Huy). apply in_map. exact Hy.
+Qed.
+
+Lemma flat_map_filter_nonempty {A B} (f : A -> list B) l :
+  flat_map f l = flat_map f (filter (fun x => match f x with [] => false | _ => true end) l).
+Proof.
+  induction l as [|a t IH]; [reflexivity|]. cbn [flat_map filter]. destruct (f a) eqn:E.
+  - cbn [app]. exact IH.
+  - cbn [flat_map]. rewrite E, IH. reflexivity.
+Qed.
+
+Lemma filter_flat_map {A B} (q : B -> bool) (h : A -> list B) l :
+  filter q (flat_map h l) = flat_map (fun n => filter q (h n)) l.
+Proof. induction l as [|a t IH]; [reflexivity|]. cbn [flat_map]. rewrite filter_app, IH. reflexivity. Qed.
+
+Lemma NoDup_flat_map_sub {A B} (F F' : A -> list B) (q : A -> bool) l :
+  (forall n, incl (F' n) (F n)) -> (forall n, NoDup (F n) -> NoDup (F' n)) ->
+  NoDup (flat_map F l) -> NoDup (flat_map F' (filter q l)).
+Proof.
+  intros Hi Hn. induction l as [|a t IH]; intros H; [constructor|]. cbn [flat_map] in H. cbn [filter].
+  pose proof (NoDup_app_l _ _ H) as H1. pose proof (NoDup_app_r _ _ H) as H2.
+  destruct (q a); [|apply IH; exact H2]. cbn [flat_map]. apply NoDup_app_intro; [apply Hn; exact H1|apply IH; exact H2|].
+  intros x Hx Hx'. apply (NoDup_app_disj _ _ x H); [apply Hi; exact Hx|].
+  apply in_flat_map in Hx'. destruct Hx' as (y & Hy & Hxy). apply filter_In in Hy. apply in_flat_map. exists y.
+  split; [tauto|apply Hi; exact Hxy].
+Qed.
+
+Lemma map_snd_starts g vs : map snd (starts_of g vs) = flat_map (fun n => filter (fun t => negb (is_kind g KTrx t)) (succs n)) vs.
+Proof.
+  unfold starts_of. induction vs as [|n t IH]; [reflexivity|]. cbn [flat_map]. rewrite map_app, IH. f_equal.
+  rewrite map_map. cbn [snd]. apply map_id.
+Qed.
+
+Lemma filter_comm {A} (p q : A -> bool) l : filter p (filter q l) = filter q (filter p l).
+Proof.
+  induction l as [|a t IH]; [reflexivity|]. cbn [filter].
+  destruct (q a) eqn:Eq; destruct (p a) eqn:Ep; cbn [filter]; rewrite ?Eq, ?Ep, IH; reflexivity.
+Qed.
+
+Lemma line_start_targets_NoDup g :
+  NoDup (line_targets g) -> NoDup (filter (is_line_uid g) (map snd (roadm_starts g))).
+Proof.
+  intros H. unfold roadm_starts. rewrite map_snd_starts, filter_flat_map.
+  apply (NoDup_flat_map_sub (fun n => filter (is_line_uid g) (succs n))); [| |exact H].
+  - intros n x Hx. apply filter_In in Hx. destruct Hx as (Hx & Hl). apply filter_In in Hx. apply filter_In. tauto.
+  - intros n Hn. rewrite filter_comm. apply NoDup_filter. exact Hn.
+Qed.
+
+Lemma Forall2_In_l {A B} (R : A -> B -> Prop) l l' x : Forall2 R l l' -> In x l -> exists y, In y l' /\ R x y.
+Proof.
+  induction 1 as [|a b l l' Hab _ IH]; intros Hx; [destruct Hx|]. destruct Hx as [<-|Hx].
+  - exists b. split; [left; reflexivity|exact Hab].
+  - destruct (IH Hx) as (y & Hy & Hr). exists y. split; [right; exact Hy|exact Hr].
+Qed.
+Lemma Forall2_In_r {A B} (R : A -> B -> Prop) l l' y : Forall2 R l l' -> In y l' -> exists x, In x l /\ R x y.
+Proof.
+  induction 1 as [|a b l l' Hab _ IH]; intros Hy; [destruct Hy|]. destruct Hy as [<-|Hy].
+  - exists a. split; [left; reflexivity|exact Hab].
+  - destruct (IH Hy) as (x & Hx & Hr). exists x. split; [right; exact Hx|exact Hr].
+Qed.
+
+(* ---- the decomposition *)
+Definition walked (g : graph) (st : Z * Z) (l : line) : Prop :=
+  exists p, walk_of g st = Ok p /\ l = line_of_walk st p.
+
+Lemma nodup_b_true_iff l : NoDup l -> nodup_b l = true.
+Proof.
+  induction 1 as [|x t Hn _ IH]; [reflexivity|]. cbn [nodup_b]. rewrite IH, andb_true_r. apply negb_true_iff.
+  destruct (existsb (Z.eqb x) t) eqn:E; [|reflexivity]. apply existsb_exists in E. destruct E as (y & Hy & Ey).
+  assert (x = y) by lia. subst. contradiction.
+Qed.
+
+Record walk_facts (g : graph) (st : Z * Z) (p : list Z) : Prop := mkWF {
+  wf_hd : exists rest, p = snd st :: rest;
+  wf_chain : chain_ok_b g (fst st) p = true;
+  wf_last : is_kind g KRoadm (List.last p 0) = true;
+  wf_src : exists n, In n g /\ uid n = fst st /\ is_roadm n = true /\ In (snd st) (succs n)
+}.
+
+Lemma walk_of_facts g st p :
+  nodes_local g -> In st (roadm_starts g) -> walk_of g st = Ok p -> walk_facts g st p.
+Proof.
+  intros HL Hst Hw. destruct st as [r t]. unfold roadm_starts in Hst. apply starts_in in Hst.
+  destruct Hst as (n & Hn & Hu & Ht & Hk). apply filter_In in Hn. destruct Hn as (Hn & Hr).
+  unfold walk_of in Hw. cbn [fst snd] in *.
+  pose proof (walk_target_kind g _ r t p Hw Hk) as Hkind.
+  destruct (walk_chain_ok g HL _ r t p Hw Hkind) as (Hc & Hlast).
+  constructor; cbn [fst snd]; auto.
+  - eapply walk_hd. exact Hw.
+  - exists n. auto.
+Qed.
+
+Lemma removelast_app_last {A} (p : list A) d : p <> [] -> removelast p ++ [List.last p d] = p.
+Proof. intros H. symmetry. apply app_removelast_last. exact H. Qed.
+
+Theorem local_wf_sound g :
+  local_wf_b g = true -> exists d, lines_of g = Ok d /\ chain_wf g d.
+Proof.
+  unfold local_wf_b. intros H.
+  apply andb_true_iff in H. destruct H as (H & H5).
+  apply andb_true_iff in H. destruct H as (H & H4).
+  apply andb_true_iff in H. destruct H as (H & H3).
+  apply andb_true_iff in H. destruct H as (H1 & H2).
+  pose proof (nodup_b_NoDup _ H1) as Huid. pose proof (nodup_b_NoDup _ H3) as Htgt.
+  assert (HL : nodes_local g) by (intros n Hn; rewrite forallb_forall in H2; apply H2; exact Hn).
+  rewrite forallb_forall in H4.
+  (* the lines *)
+  destruct (mapM_Forall2 (fun st => let* p := walk_of g st in Ok (line_of_walk st p)) (walked g) (roadm_starts g))
+    as (d & Hd & HF).
+  { intros st Hst. specialize (H4 st Hst). destruct (walk_of g st) as [p|e] eqn:Ep; [|discriminate].
+    cbn [bind]. exists (line_of_walk st p). split; [reflexivity|]. exists p. auto. }
+  exists d. split; [exact Hd|].
+  assert (Hfacts : forall l, In l d -> exists st p, In st (roadm_starts g) /\ walk_of g st = Ok p /\
+                     l = line_of_walk st p /\ walk_facts g st p).
+  { intros l Hl. destruct (Forall2_In_r _ _ _ l HF Hl) as (st & Hst & p & Hp & ->).
+    exists st, p. split; [exact Hst|]. split; [exact Hp|]. split; [reflexivity|]. apply walk_of_facts; auto. }
+  constructor.
+  - exact Huid.
+  - intros n Hn Hk. specialize (HL n Hn). unfold node_local_b in HL. rewrite Hk in HL.
+    destruct (succs n) as [|s t]; [discriminate|]. exists s, t. split; [reflexivity|].
+    cbn [forallb] in HL. apply andb_true_iff in HL. tauto.
+  - (* starts *)
+    change (filter is_roadm g) with (filter (fun n => kind_eqb (kind n) KRoadm) g). fold (roadm_starts g).
+    assert (G : forall ss dd, Forall2 (walked g) ss dd -> (forall st, In st ss -> In st (roadm_starts g)) ->
+                map (fun l => (src l, first_hop l)) dd = ss).
+    { induction 1 as [|st l ss dd (p & Hp & ->) _ IH]; intros Hin; [reflexivity|]. cbn [map].
+      rewrite IH by (intros; apply Hin; right; assumption). f_equal.
+      destruct (walk_of_facts g st p HL (Hin st (or_introl eq_refl)) Hp) as [(rest & ->) _ _ _].
+      destruct st as [r t]. unfold line_of_walk, first_hop. cbn [src lels dst fst snd]. f_equal.
+      destruct rest; reflexivity. }
+    apply G; auto.
+  - (* every line is a chain ending at a ROADM *)
+    apply Forall_forall. intros l Hl. destruct (Hfacts l Hl) as (st & p & Hst & Hp & -> & [(rest & E) Hc Hlast _]).
+    unfold line_ok_b, line_of_walk. cbn [src lels dst]. rewrite Hlast. cbn [andb].
+    rewrite removelast_app_last by (rewrite E; discriminate). exact Hc.
+  - (* no line element on two lines, or twice on one *)
+    rewrite flat_map_filter_nonempty.
+    set (d' := filter (fun x => match lels x with [] => false | _ => true end) d).
+    assert (Hd' : forall l, In l d' -> In l d /\ lels l <> []).
+    { intros l Hl. apply filter_In in Hl. destruct Hl as (Hl & E). split; [exact Hl|]. destruct (lels l); [discriminate|discriminate]. }
+    assert (Hrp : forall l, In l d -> forall i u, nth_error (lels l) i = Some u -> rpn g (src l) (first_hop l) u i).
+    { intros l Hl i u Hi. destruct (Hfacts l Hl) as (st & p & Hst & Hp & -> & [(rest & E) Hc Hlast (n & Hn & Hu & Hr & Hsucc)]).
+      destruct st as [r t]. cbn [fst snd] in *. unfold line_of_walk, first_hop in *. cbn [src lels dst] in *.
+      assert (Efh : hd (List.last p 0) (removelast p) = t) by (rewrite E; destruct rest; reflexivity).
+      rewrite Efh. apply (chain_rpn g r t p r 0 Hc); [|exact Hi].
+      intros y rest' E' Hne. rewrite E in E'. injection E' as <- <-. apply rp0.
+      - exists n. repeat split; auto. rewrite E in Hc. destruct rest as [|z q]; [congruence|].
+        cbn [chain_ok_b] in Hc. apply andb_true_iff in Hc. destruct Hc as (Hy & _). unfold is_line_uid, is_line_node.
+        destruct (lookup g t) as [ny|]; [|discriminate]. apply andb_true_iff in Hy. tauto.
+      - exists n. auto. }
+    apply (NoDup_flat_map_keyed lels first_hop).
+    + (* first hops of the lines with an interior are distinct *)
+      assert (G : forall ss dd, Forall2 (walked g) ss dd -> (forall st, In st ss -> In st (roadm_starts g)) ->
+                  map first_hop (filter (fun x => match lels x with [] => false | _ => true end) dd) =
+                  filter (is_line_uid g) (map snd ss)).
+      { induction 1 as [|st l ss dd (p & Hp & ->) _ IH]; intros Hin; [reflexivity|]. cbn [map filter].
+        destruct (walk_of_facts g st p HL (Hin st (or_introl eq_refl)) Hp) as [(rest & E) Hc Hlast _].
+        destruct st as [r t]. cbn [fst snd] in *. unfold line_of_walk at 1 2. cbn [lels].
+        rewrite E. destruct rest as [|z q].
+        - (* the first hop is the ROADM itself *)
+          cbn [removelast]. rewrite E in Hlast. cbn [List.last] in Hlast. apply is_kind_lookup in Hlast.
+          destruct Hlast as (nt & Ent & Ekt). unfold is_line_uid at 1. rewrite Ent. unfold is_line_node.
+          rewrite kind_eqb_sym in Ekt. rewrite Ekt. cbn [negb andb]. apply IH. intros; apply Hin; right; assumption.
+        - change (removelast (t :: z :: q)) with (t :: removelast (z :: q)).
+          rewrite E in Hc. cbn [chain_ok_b] in Hc. apply andb_true_iff in Hc. destruct Hc as (Hy & _).
+          unfold is_line_uid at 1. unfold is_line_node. destruct (lookup g t) as [nt|]; [|discriminate].
+          apply andb_true_iff in Hy. destruct Hy as (Hy & _). rewrite Hy. cbn [map]. f_equal.
+          apply IH. intros; apply Hin; right; assumption. }
+      fold d'. unfold d'. rewrite (G _ _ HF (fun st H => H)). apply line_start_targets_NoDup. exact Htgt.
+    + intros l Hl. destruct (Hd' l Hl) as (Hld & _). apply NoDup_nth_error. intros i j Hi Hij.
+      destruct (nth_error (lels l) i) as [u|] eqn:Ei; [|apply nth_error_None in Ei; lia].
+      symmetry in Hij. pose proof (Hrp l Hld i u Ei) as R1. pose proof (Hrp l Hld j u Hij) as R2.
+      destruct (rpn_unique g _ _ _ _ u i j Huid Htgt R1 R2). assumption.
+    + intros x y u Hx Hy Hux Huy. destruct (Hd' x Hx) as (Hxd & _). destruct (Hd' y Hy) as (Hyd & _).
+      apply In_nth_error in Hux. destruct Hux as (i & Hi). apply In_nth_error in Huy. destruct Huy as (j & Hj).
+      pose proof (Hrp x Hxd i u Hi) as R1. pose proof (Hrp y Hyd j u Hj) as R2.
+      destruct (rpn_unique g _ _ _ _ u i j Huid Htgt R1 R2). assumption.
+  - (* every line element lies on a line *)
+    intros n Hn Hl. rewrite forallb_forall in H5. specialize (H5 n Hn). rewrite Hl in H5. cbn [negb orb] in H5.
+    apply existsb_exists in H5. destruct H5 as (st & Hst & Hw). destruct (walk_of g st) as [p|e] eqn:Ep; [|discriminate].
+    apply existsb_exists in Hw. destruct Hw as (x & Hx & Ex). assert (uid n = x) by lia. subst x.
+    destruct (Forall2_In_l _ _ _ st HF Hst) as (l & Hld & p' & Hp' & ->). rewrite Ep in Hp'. injection Hp' as <-.
+    apply in_flat_map. exists (line_of_walk st p). split; [exact Hld|exact Hx].
+Qed.
+
+(* ================================================================ from the amplifier bands to the OMS list *)
+Definition amps_ok (g : graph) : Prop := forall n, In n g -> kind n = KAmp -> pdisj (abands n).
+
+Lemma dj_b_sound a b : dj_b a b = true -> dj a b.
+Proof. unfold dj_b, dj. rewrite orb_true_iff, !Qle_bool_iff. tauto. Qed.
+
+Lemma pdisj_b_sound l : pdisj_b l = true -> pdisj l.
+Proof.
+  induction l as [|a t IH]; intros H; [exact I|]. cbn [pdisj_b] in H. apply andb_true_iff in H. destruct H as (H1 & H2).
+  split; [|auto]. apply Forall_forall. intros b Hb. rewrite forallb_forall in H1. apply dj_b_sound, H1, Hb.
+Qed.
+
+Lemma amps_ok_b_sound g : amps_ok_b g = true -> amps_ok g.
+Proof.
+  unfold amps_ok_b, amps_ok. intros H n Hn Hk. rewrite forallb_forall in H. specialize (H n Hn). rewrite Hk in H.
+  cbn in H. apply pdisj_b_sound. exact H.
+Qed.
+
+Lemma fold_qmin_le l : forall x, (fold_left qmin l x <= x)%Q /\ forall y, In y l -> (fold_left qmin l x <= y)%Q.
+Proof.
+  induction l as [|a t IH]; intros x; cbn [fold_left]; [split; [apply Qle_refl|intros y []]|].
+  destruct (IH (qmin x a)) as (H1 & H2). split.
+  - apply Qle_trans with (qmin x a); [exact H1|apply qmin_le_l].
+  - intros y [<-|Hy]; [apply Qle_trans with (qmin x a); [exact H1|apply qmin_le_r]|auto].
+Qed.
+
+Lemma fold_qmax_ge l : forall x, (x <= fold_left qmax l x)%Q /\ forall y, In y l -> (y <= fold_left qmax l x)%Q.
+Proof.
+  induction l as [|a t IH]; intros x; cbn [fold_left]; [split; [apply Qle_refl|intros y []]|].
+  destruct (IH (qmax x a)) as (H1 & H2). split.
+  - apply Qle_trans with (qmax x a); [apply qmax_ge_l|exact H1].
+  - intros y [<-|Hy]; [apply Qle_trans with (qmax x a); [apply qmax_ge_r|exact H1]|auto].
+Qed.
+
+(* find_network_freq_range covers every band of every amplifier *)
+Lemma network_range_covers g fmin fmax :
+  find_network_freq_range g = Ok (fmin, fmax) ->
+  forall n b, In n g -> kind n = KAmp -> In b (abands n) -> (fmin <= fst b)%Q /\ (snd b <= fmax)%Q.
+Proof.
+  unfold find_network_freq_range. intros H n b Hn Hk Hb.
+  assert (Hin : In b (all_amp_bands g)).
+  { unfold all_amp_bands. apply in_flat_map. exists n. split; [exact Hn|]. rewrite Hk. cbn. exact Hb. }
+  destruct (all_amp_bands g) as [|b0 t]; [discriminate|]. injection H as <- <-.
+  destruct (fold_qmin_le (map fst t) (fst b0)) as (A1 & A2). destruct (fold_qmax_ge (map snd t) (snd b0)) as (B1 & B2).
+  destruct Hin as [<-|Hin]; [auto|]. split; [apply A2, in_map, Hin|apply B2, in_map, Hin].
+Qed.
+
+Lemma oms_amp_bands_in g els amp : In amp (oms_amp_bands g els) -> exists n, In n g /\ kind n = KAmp /\ amp = abands n.
+Proof.
+  unfold oms_amp_bands. rewrite in_flat_map. intros (u & _ & H). destruct (lookup g u) as [n|] eqn:En; [|destruct H].
+  destruct (kind_eqb (kind n) KAmp) eqn:Ek; [|destruct H]. destruct H as [<-|[]].
+  exists n. split; [apply (lookup_In g u n En)|]. split; [apply kind_eqb_eq; exact Ek|reflexivity].
+Qed.
+
+(* the hypothesis of build_oms_list_ok no longer checked on the outcome of find_common_range but derived from the
+   amplifier bands; what must be excluded is exactly what the open findings are about *)
+Theorem common_ok_from_bands g si fmin fmax els :
+  find_network_freq_range g = Ok (fmin, fmax) -> amps_ok g ->
+  elements_common_range g els si <> [] ->
+  (oms_amp_bands g els = [] -> (fmin <= fst si)%Q /\ (fst si <= snd si)%Q /\ (snd si <= fmax)%Q) ->
+  common_ok g si fmin fmax els.
+Proof.
+  intros Hfr Hok Hne Hsi. unfold common_ok.
+  change (elements_common_range g els si) with (find_common_range (oms_amp_bands g els) si) in *.
+  destruct (oms_amp_bands g els) as [|a0 rest] eqn:Ea.
+  - destruct (Hsi eq_refl) as (A & B & C). cbn. destruct si as [lo hi]. cbn [fst snd] in *. auto.
+  - rewrite <- Ea in *. apply find_common_range_sorted; auto.
+    + rewrite Ea. discriminate.
+    + intros amp Hamp. apply oms_amp_bands_in in Hamp. destruct Hamp as (n & Hn & Hk & ->). apply Hok; assumption.
+    + intros amp b Hamp Hb. apply oms_amp_bands_in in Hamp. destruct Hamp as (n & Hn & Hk & ->).
+      eapply network_range_covers; eassumption.
+Qed.
+
+Definition line_bands_ok (g : graph) (si : band) (fmin fmax : Q) (l : line) : Prop :=
+  elements_common_range g (line_path l) si <> [] /\
+  (oms_amp_bands g (line_path l) = [] -> (fmin <= fst si)%Q /\ (fst si <= snd si)%Q /\ (snd si <= fmax)%Q).
+
+Theorem build_oms_list_ok_bands g si d fmin fmax :
+  chain_wf g d -> d <> [] -> find_network_freq_range g = Ok (fmin, fmax) -> amps_ok g ->
+  Forall (line_bands_ok g si fmin fmax) d ->
+  exists r rv, build_oms_list g si = Ok r /\
+    map el_ids r = map line_path d /\
+    reversed_oms (map line_path d) = Ok rv /\ map rev_id r = rv /\
+    Forall2 (map_ok g si fmin fmax) d (map smap r).
+Proof.
+  intros W Hne Hfr Hok Hl. apply build_oms_list_ok; auto.
+  apply Forall_forall. intros l Hin. rewrite Forall_forall in Hl. destruct (Hl l Hin) as (A & B).
+  apply common_ok_from_bands; auto.
+Qed.
+
+(* ---- everything from local conditions *)
+Theorem oms_partition_local g :
+  local_wf_b g = true ->
+  exists d L, lines_of g = Ok d /\ build_oms_els g = Ok L /\ L = map line_path d /\
+    (forall n, In n g -> is_line_node n = true -> count_occ Z.eq_dec (flat_map interior L) (uid n) = 1%nat) /\
+    Forall (fun el => exists a els b, el = a :: els ++ [b] /\
+                      is_kind g KRoadm a = true /\ is_kind g KRoadm b = true /\
+                      Forall (fun u => is_kind g KRoadm u = false /\ is_kind g KTrx u = false) els /\
+                      path g el) L.
+Proof.
+  intros H. destruct (local_wf_sound g H) as (d & Hd & W). destruct (oms_partition g d W) as (L & H1 & H2 & H3 & H4).
+  exists d, L. auto.
+Qed.
+
+Theorem build_oms_list_local g si :
+  net_local_hyps_b g si = true ->
+  exists d fmin fmax r rv,
+    lines_of g = Ok d /\ chain_wf g d /\ find_network_freq_range g = Ok (fmin, fmax) /\
+    build_oms_list g si = Ok r /\
+    map el_ids r = map line_path d /\
+    reversed_oms (map line_path d) = Ok rv /\ map rev_id r = rv /\
+    Forall2 (map_ok g si fmin fmax) d (map smap r).
+Proof.
+  unfold net_local_hyps_b. intros H. apply andb_true_iff in H. destruct H as (H & H3).
+  apply andb_true_iff in H. destruct H as (H1 & H2).
+  destruct (local_wf_sound g H1) as (d & Hd & W). rewrite Hd in H3.
+  destruct (find_network_freq_range g) as [[fmin fmax]|e] eqn:Hfr; [|discriminate].
+  apply andb_true_iff in H3. destruct H3 as (Hlen & Hlines).
+  assert (Hne : d <> []) by (intros ->; discriminate).
+  destruct (build_oms_list_ok_bands g si d fmin fmax W Hne Hfr (amps_ok_b_sound g H2)) as (r & rv & R1 & R2 & R3 & R4 & R5).
+  { apply Forall_forall. intros l Hl. rewrite forallb_forall in Hlines. specialize (Hlines l Hl).
+    apply andb_true_iff in Hlines. destruct Hlines as (A & B). split.
+    - intros E. rewrite E in A. discriminate.
+    - intros E. rewrite E in B. apply andb_true_iff in B. destruct B as (B & B3). apply andb_true_iff in B.
+      destruct B as (B1 & B2). rewrite !Qle_bool_iff in *. auto. }
+  exists d, fmin, fmax, r, rv. split; [exact Hd|]. split; [exact W|]. split; [reflexivity|].
+  split; [exact R1|]. split; [exact R2|]. split; [exact R3|]. split; [exact R4|exact R5].
+Qed.
+
+Lemma oms_amps_eq g els : oms_amps g els = oms_amp_bands g els.
+Proof. reflexivity. Qed.
